@@ -282,5 +282,56 @@ func runC15(r *Runner, tier string, rng *Rng) {
 		}
 	}
 	flush()
-	r.St.Rule = "(1) Sign and VerifySignature with degenerate key objects: key type contradicting the material, halves of other keys, truncated/garbage/empty PEM, Ed25519 hex of wrong length or alphabet, certificates as key, wrong schemes - outcome class ok/err/panic/hang vs model; (2) degenerate layouts through InTotoVerify: thresholds 0 and negative, steps without links, random rules incl. malformed, hostile link directories (garbage, undecodable signatures, a layout posing as link, many signatures, huge file) vs model; (2b) layouts whose step names are file-name patterns, paths, dots, blanks, control characters or very long, with short and oddly named files in the link directory: crash and hang freedom only; (3) byte-level mutations (bit flips, deletions, insertions, truncation, token injection, deep nesting, random bytes) of valid files through Load/Validate/Verify/Sign/Dump/InTotoVerify: crash and hang freedom only (search support, model not consulted). Class = (stream, key/material classes or population kinds, outcome)."
+	// (3b) structure-aware single-point mutations of valid files (drop / rename / retype / NULLIFY /
+	// duplicate a member at every nesting level, both wrappers) through the same calls: crash and
+	// hang freedom only (seeded change c15-signed-null-deref needs "signed": null)
+	for i := 0; i < tierN(tier, 500, 15000); i++ {
+		t, _ := g.tree()
+		n := countSites(t)
+		if n == 0 {
+			continue
+		}
+		mt, _, ok := mutateAt(t, rng.Intn(n), mutKinds[rng.Intn(len(mutKinds))])
+		if !ok {
+			continue
+		}
+		if rng.Chance(30) { // a second mutation elsewhere
+			if m2, _, ok2 := mutateAt(mt, rng.Intn(countSites(mt)+1), mutKinds[rng.Intn(len(mutKinds))]); ok2 {
+				mt = m2
+			}
+		}
+		b := []byte(WriteJ(mt, nil, false))
+		r.St.Count("structural_mutations")
+		batch = append(batch, Case{Op: "survive", Args: map[string]any{"b64": base64.StdEncoding.EncodeToString(b)}, Feat: "struct", Trivial: true})
+		if len(batch) >= 200 {
+			flush()
+		}
+	}
+	flush()
+	// … and every TOP-LEVEL part of both wrappers absent, null or of another JSON type
+	for i := 0; i < tierN(tier, 30, 300); i++ {
+		t, _ := g.tree()
+		for _, kv := range t {
+			for _, repl := range []any{nil, "<drop>", "text", JNum("7"), []any{}, JObj{}, true} {
+				var mt JObj
+				if repl == "<drop>" {
+					for _, kv2 := range t {
+						if kv2.K != kv.K {
+							mt = append(mt, kv2)
+						}
+					}
+				} else {
+					mt = append(JObj{}, t...).Set(kv.K, repl)
+				}
+				b := []byte(WriteJ(mt, nil, false))
+				r.St.Count("top_level_mutations")
+				batch = append(batch, Case{Op: "survive", Args: map[string]any{"b64": base64.StdEncoding.EncodeToString(b)}, Feat: "top", Trivial: true})
+			}
+		}
+		if len(batch) >= 200 {
+			flush()
+		}
+	}
+	flush()
+	r.St.Rule = "(1) Sign and VerifySignature with degenerate key objects: key type contradicting the material, halves of other keys, truncated/garbage/empty PEM, Ed25519 hex of wrong length or alphabet, certificates as key, wrong schemes - outcome class ok/err/panic/hang vs model; (2) degenerate layouts through InTotoVerify: thresholds 0 and negative, steps without links, random rules incl. malformed, hostile link directories (garbage, undecodable signatures, a layout posing as link, many signatures, huge file) vs model; (2b) layouts whose step names are file-name patterns, paths, dots, blanks, control characters or very long, with short and oddly named files in the link directory: crash and hang freedom only; (3) byte-level mutations (bit flips, deletions, insertions, truncation, token injection, deep nesting, random bytes) of valid files through Load/Validate/Verify/Sign/Dump/InTotoVerify: crash and hang freedom only (search support, model not consulted); (3b) structure-aware single-point mutations (drop / rename / retype / nullify / duplicate a member at every nesting level) through the same calls. Class = (stream, key/material classes or population kinds, outcome)."
 }
